@@ -2,7 +2,7 @@
 """tools/seeded_run.py <table.json>: confirms and evaluates seeded changes in ONE reusable scratch copy (/tmp/vs-seed).
 table entry: {"id","src","crates":[..],"features":"","demo_crate","demo","checks":[..]}"""
 import json, os, subprocess, sys, shutil
-BASE = "/tmp/vs-seed"
+BASE = "/tmp/vs-" + os.environ.get("SEED_SCRATCH", "seed")
 def sh(cmd, cwd=None, env=None, timeout=1800, log=None):
     e = dict(os.environ); e.update(env or {})
     r = subprocess.run(cmd, shell=True, cwd=cwd, env=e, stdout=subprocess.PIPE, stderr=subprocess.STDOUT, text=True, timeout=timeout)
@@ -11,8 +11,8 @@ def sh(cmd, cwd=None, env=None, timeout=1800, log=None):
 table = json.load(open(sys.argv[1]))
 skip_demo = os.environ.get("SKIP_DEMO")
 if not os.path.isdir(BASE + "/repo"):
-    sh("/verif/tools/scratch.sh new seed")
-sh("/verif/tools/scratch.sh sync seed")
+    sh("/verif/tools/scratch.sh new " + os.environ.get("SEED_SCRATCH", "seed"))
+sh("/verif/tools/scratch.sh sync " + os.environ.get("SEED_SCRATCH", "seed"))
 os.makedirs(BASE + "/log", exist_ok=True)
 results = {}
 for t in table:
